@@ -185,6 +185,11 @@ func (e *Evidence) write(c *Ctx) error {
 		return err
 	}
 	dir := filepath.Join(verifDir, "evidence")
+	if d := os.Getenv("VERIF_EVIDENCE_DIR"); d != "" {
+		// runs against a deliberately changed tree (tools/try_patch*.sh) must not overwrite the
+		// evidence of the unchanged one
+		dir = d
+	}
 	os.MkdirAll(dir, 0o755)
 	return os.WriteFile(filepath.Join(dir, c.Prop+".json"), b, 0o644)
 }
